@@ -22,7 +22,8 @@ REQUIRED = ["pairs_checked", "mappings_validated", "maximum_checked", "direction
             "first_graph_larger", "optimum_smaller_than_pattern", "disconnected_pairs", "mtg_checked",
             "noninteger_order_pairs", "disconnected_optimum_beats_edge_bound", "mcs_mol_checked", "reused_matcher_checked",
             "option_pairs/prune_wc", "wildcard_pruning_flips_size_order", "pairs_with_omitted_default_attributes",
-            "pairs_with_non_numeric_bond_labels", "pairs_with_element_free_selection", "pairs_with_two_bond_labels"]
+            "pairs_with_non_numeric_bond_labels", "pairs_with_element_free_selection", "pairs_with_two_bond_labels",
+            "ring_path_pairs", "ring_path_pairs_with_lookalike_subpatterns"]
 ASSUMPTIONS = [
     "common subgraph = common induced subgraph (bond present iff present, equal order), as the statement says",
     "edge orders compared numerically (float equality), node labels by the configured attributes",
@@ -268,8 +269,66 @@ def without_default_attrs(G, rng, p=0.5):
     return H, k
 
 
+def lookalike_subpatterns(P, k):
+    """does P have two k-node subsets inducing non-isomorphic sub-patterns that agree on every cheap invariant
+    (labelled degree sequence, bond-order multiset)?  Such twins defeat caches keyed by an incomplete fingerprint."""
+    seen = {}
+    nm = lambda a, b: a.get("element") == b.get("element")
+    em = lambda a, b: a.get("order") == b.get("order")
+    for nodes in itertools.combinations(list(P.nodes), k):
+        S = P.subgraph(nodes)
+        sig = (tuple(sorted((S.nodes[n].get("element"), S.degree(n)) for n in S)),
+               tuple(sorted(repr(d.get("order")) for _, _, d in S.edges(data=True))))
+        for other in seen.setdefault(sig, []):
+            if not nx.is_isomorphic(S, other, node_match=nm, edge_match=em):
+                return True
+        seen[sig].append(S)
+    return False
+
+
+def ring_path_pairs(ctx, rng, n_pairs):
+    """small rings (4-6 atoms, two or three elements, two bond orders) against paths cut out of the ring and altered
+    at the ends: the optimum is a proper sub-path, and the ring has many same-size sub-patterns that differ only in
+    how labels and orders are arranged.  Every pair is presented in several numberings (search order matters)."""
+    space = "rings of 4-6 atoms vs paths (sub-path of the ring with altered ends / random paths), several numberings"
+    for t in range(n_pairs):
+        n = rng.choice([4, 4, 4, 5, 5, 6])
+        els = [rng.choice(["C", "C", "O", "N"]) for _ in range(n)]
+        ords = [rng.choice([1, 2]) for _ in range(n)]
+        R = WG.to_nx(([(e, 0) for e in els], [((i, (i + 1) % n), ords[i]) for i in range(n)]))
+        if rng.random() < 0.7:
+            # path = k consecutive ring atoms, then foreign atoms on one or both ends
+            k = rng.randint(2, n - 1)
+            s = rng.randrange(n)
+            labs = [els[(s + i) % n] for i in range(k)]
+            eo = [ords[(s + i) % n] for i in range(k - 1)]
+            if rng.random() < 0.5:
+                labs, eo = labs[::-1], eo[::-1]
+            for _ in range(rng.randint(1, 2)):
+                if rng.random() < 0.5:
+                    labs, eo = [rng.choice(["N", "S", "O"])] + labs, [rng.choice([1, 2])] + eo
+                else:
+                    labs, eo = labs + [rng.choice(["N", "S", "O"])], eo + [rng.choice([1, 2])]
+        else:
+            m = rng.randint(3, 6)
+            labs = [rng.choice(["C", "C", "O", "N"]) for _ in range(m)]
+            eo = [rng.choice([1, 2]) for _ in range(m - 1)]
+        Pth = WG.to_nx(([(e, 0) for e in labs], [((i, i + 1), eo[i]) for i in range(len(labs) - 1)]))
+        look = any(lookalike_subpatterns(R, k) for k in range(2, n))
+        for rep in range(3):
+            A, _ = WG.scramble(R, rng) if rep else (R, None)
+            Bg, _ = WG.scramble(Pth, rng) if rep else (Pth, None)
+            if rep == 2:
+                A, Bg = Bg, A
+            ctx.count("ring_path_pairs")
+            if look:
+                ctx.count("ring_path_pairs_with_lookalike_subpatterns")
+            check_pair(ctx, A, Bg, space, ("ringpath", WG.describe(A), WG.describe(Bg)))
+
+
 def run(ctx):
     rng = ctx.rng
+    ring_path_pairs(ctx, rng, 25 if ctx.quick else 400)
     nmax = 3 if ctx.quick else 4
     reps = [r for n in range(1, nmax + 1) for r in WG.classes(n, WG.RED_NODE, [1, 2])]
     space = f"all ordered pairs of class representatives <= {nmax} nodes (2 elements x orders{{1,2}})"
